@@ -108,19 +108,35 @@ Proof.
   intros [H|H]; [discriminate|]. revert H. apply digits_no_comma. apply ndec_digits.
 Qed.
 
-Lemma fields5 a b c d e : ~ In 44%N a -> ~ In 44%N b -> ~ In 44%N c -> ~ In 44%N d -> ~ In 44%N e ->
-  fields (a ++ 44%N :: b ++ 44%N :: c ++ 44%N :: d ++ 44%N :: e) = [a; b; c; d; e].
+Lemma split_commas_nonempty s : forall acc, split_commas s acc <> [].
+Proof. induction s as [|c s IH]; intro acc; cbn [split_commas]; [discriminate|]. destruct (c =? 44)%N; [discriminate|apply IH]. Qed.
+
+Lemma join_commas_cons x l : l <> [] -> join_commas (x :: l) = x ++ 44%N :: join_commas l.
+Proof. destruct l; [contradiction|reflexivity]. Qed.
+
+(** splitting at commas and joining again gives the text back: whatever the write type contains *)
+Lemma join_split s : forall acc, join_commas (split_commas s acc) = rev acc ++ s.
 Proof.
-  intros Ha Hb Hc Hd He. unfold fields. destruct (a ++ 44%N :: b ++ 44%N :: c ++ 44%N :: d ++ 44%N :: e) eqn:E.
+  induction s as [|c s IH]; intro acc; cbn [split_commas].
+  - cbn [join_commas]. rewrite app_nil_r. reflexivity.
+  - destruct (c =? 44)%N eqn:E.
+    + apply N.eqb_eq in E. subst c. rewrite join_commas_cons by apply split_commas_nonempty. rewrite IH. reflexivity.
+    + rewrite IH. cbn [rev]. rewrite <- app_assoc. reflexivity.
+Qed.
+
+Lemma fields5 a b c d e : ~ In 44%N a -> ~ In 44%N b -> ~ In 44%N c -> ~ In 44%N d ->
+  fields (a ++ 44%N :: b ++ 44%N :: c ++ 44%N :: d ++ 44%N :: e) = a :: b :: c :: d :: split_commas e [].
+Proof.
+  intros Ha Hb Hc Hd. unfold fields. destruct (a ++ 44%N :: b ++ 44%N :: c ++ 44%N :: d ++ 44%N :: e) eqn:E.
   - destruct a; discriminate.
-  - rewrite <- E. rewrite !split_commas_app by assumption. rewrite split_commas_nocomma by exact He. reflexivity.
+  - rewrite <- E. rewrite !split_commas_app by assumption. reflexivity.
 Qed.
 
 Lemma err_of_fields_text m : traceable_err m -> err_of_fields (err_text m) = m.
 Proof.
-  intros (A1 & A2 & A3 & A4 & W). unfold err_of_fields, err_text.
+  intros (A1 & A2 & A3 & A4). unfold err_of_fields, err_text.
   assert (Bn : ~ In 44%N (if e_dataPresent m then str "true" else str "false")) by (destruct (e_dataPresent m); vm_compute; intuition discriminate).
-  rewrite fields5 by (try apply zdec_no_comma; assumption). cbn [nth]. rewrite !parse_int_zdec.
+  rewrite fields5 by (try apply zdec_no_comma; assumption). cbn [nth skipn]. rewrite !parse_int_zdec, join_split. cbn [rev app].
   unfold mk_err. destruct m as [c r b dp wt al rq nf cs]; cbn [e_code e_received e_blockFor e_dataPresent e_writeType e_alive e_required e_numFailures e_consistency] in *.
   subst. destruct dp; reflexivity.
 Qed.
@@ -862,16 +878,18 @@ Proof. vm_compute. reflexivity. Qed.
 Example ex_events_accepted_and_quiescent : run_monitor (L [I 8; I 1; L (trace_of host_key ex_events)]) = L [I 0].
 Proof. vm_compute. reflexivity. Qed.
 
-(** the side condition on error frames is needed: a WRITE_TIMEOUT whose write type contains a comma is rendered
-    "...,BATCH_LOG,x", the monitor reads the write type back as "BATCH_LOG", expects RetrySame and raises a FALSE ALARM
-    on an execution the model allows *)
-Theorem comma_in_write_type_false_alarm : exists es, fst (mrun init_mstate (trace_of host_key es) 0) <> None.
-Proof.
-  exists [ EConnect 0%N 1%N 4; EStart 0%N 7%N 3 true [1]%N [Some (0%N, true)];
-           EFrame 0%N 0%N (FError (mk_err 4352 0 0 false (str "BATCH_LOG,x"))) [] ].
-  vm_compute. discriminate.
-Qed.
+(** a write type with a comma in it (only a hostile backend sends one) is read back whole: the execution that made the earlier
+    [err_of_fields] (write type = fifth field) raise "retry-decision-differs-from-the-policy" is accepted *)
+Definition comma_events : list event :=
+  [ EConnect 0%N 1%N 4; EStart 0%N 7%N 3 true [1]%N [Some (0%N, true)];
+    EFrame 0%N 0%N (FError (mk_err 4352 0 0 false (str "BATCH_LOG,x"))) [] ].
+
+Example comma_in_write_type_accepted :
+  Forall traceable_event comma_events /\ run_monitor (L [I 8; I 1; L (trace_of host_key comma_events)]) = L [I 0] /\
+  err_of_fields (str "4352,0,0,false,BATCH_LOG,x") = mk_err 4352 0 0 false (str "BATCH_LOG,x").
+Proof. split; [repeat constructor; cbn; intuition discriminate|]. split; vm_compute; reflexivity. Qed.
 
 Print Assumptions model_traces_accepted_gen.
 Print Assumptions model_traces_accepted.
-Print Assumptions comma_in_write_type_false_alarm.
+Print Assumptions comma_in_write_type_accepted.
+Print Assumptions err_of_fields_text.
